@@ -272,7 +272,7 @@ func (enc *Encoder) Literal(size int64, sync *ContinuationRequest) io.WriteClose
 			return errorWriter{err}
 		}
 		if _, err := sync.Wait(); err != nil {
-			enc.setErr(err)
+			enc.setErr(&LiteralCancelledError{err})
 			return errorWriter{err}
 		}
 	}
@@ -282,6 +282,22 @@ func (enc *Encoder) Literal(size int64, sync *ContinuationRequest) io.WriteClose
 		enc: enc,
 		n:   size,
 	}
+}
+
+// LiteralCancelledError is the error of an Encoder whose synchronizing
+// literal was refused by the peer (the continuation request was cancelled):
+// the rest of the command must not be written, but nothing is wrong with the
+// connection.
+type LiteralCancelledError struct {
+	Err error
+}
+
+func (err *LiteralCancelledError) Error() string {
+	return err.Err.Error()
+}
+
+func (err *LiteralCancelledError) Unwrap() error {
+	return err.Err
 }
 
 type errorWriter struct {
